@@ -83,14 +83,17 @@ def playback(prop, r, group):
 
 def native(prop, r, group, recipe, seed):
     spec = r["spec"]
-    res = kanirun.run_job(group, r["harness"], mode=spec.mode, timeout_s=spec.timeout * 2, mem_gb=spec.mem,
-                          playback=True)
-    vals = res.get("playback_vals")
-    if not vals:
-        return {"reproduced": False, "detail": "no concrete values from Kani (class=%s)" % res["class"], "path": None}
-    args = _values_by_schema(spec.schema, vals)
-    if args is None:
-        return {"reproduced": False, "detail": "playback values do not fit the input schema", "path": None}
+    if spec.schema:
+        res = kanirun.run_job(group, r["harness"], mode=spec.mode, timeout_s=spec.timeout * 2, mem_gb=spec.mem,
+                              playback=True)
+        vals = res.get("playback_vals")
+        if not vals:
+            return {"reproduced": False, "detail": "no concrete values from Kani (class=%s)" % res["class"], "path": None}
+        args = _values_by_schema(spec.schema, vals)
+        if args is None:
+            return {"reproduced": False, "detail": "playback values do not fit the input schema", "path": None}
+    else:
+        args = {}
     args.update(spec.replay_args or {})
     args["seed"] = seed
     args["failed"] = [f["desc"] for f in r.get("failed", [])][:5]
@@ -99,15 +102,16 @@ def native(prop, r, group, recipe, seed):
     return {"reproduced": ok, "path": path, "detail": out.strip().splitlines()[-1] if out.strip() else "", "condition": cond}
 
 
-_replay_built = False
+_replay_built = {}
 
 
-def replay_bin():
-    global _replay_built
-    d = os.path.join(kanirun.BUILD, "replay")
+def replay_bin(flavour="std"):
+    """flavour 'std': real crates as they are.  flavour 'rng': same sources built with
+    --cfg getrandom_backend="custom" and a failure-injecting __getrandom_v03_custom (C16)."""
+    d = os.path.join(kanirun.BUILD, "replay-" + flavour)
     os.makedirs(d, exist_ok=True)
     src = os.path.join(ROOT, "replay")
-    if not _replay_built:
+    if flavour not in _replay_built:
         if os.path.isdir(os.path.join(d, "src")):
             shutil.rmtree(os.path.join(d, "src"))
         shutil.copytree(os.path.join(src, "src"), os.path.join(d, "src"))
@@ -115,18 +119,19 @@ def replay_bin():
         kanirun._write_if_changed(os.path.join(d, "Cargo.toml"), t)
         if not os.path.exists(os.path.join(d, "Cargo.lock")):
             shutil.copy(os.path.join(kanirun.REPO, "Cargo.lock"), os.path.join(d, "Cargo.lock"))
-        rc, out = kanirun.sh(["cargo", "build", "--offline", "--release"], cwd=d, timeout=1800)
-        if rc != 0:
-            raise RuntimeError("replay crate failed to build:\n" + out[-3000:])
-        rc, out = kanirun.sh(["cargo", "build", "--offline"], cwd=d, timeout=1800)
-        if rc != 0:
-            raise RuntimeError("replay crate failed to build (dev):\n" + out[-3000:])
-        _replay_built = True
+        env = dict(kanirun.ENV)
+        if flavour == "rng":
+            env["RUSTFLAGS"] = '--cfg getrandom_backend="custom"'
+        for prof in (["--release"], []):
+            rc, out = kanirun.sh(["cargo", "build", "--offline"] + prof, cwd=d, timeout=2400, env=env)
+            if rc != 0:
+                raise RuntimeError("replay crate (%s) failed to build:\n%s" % (flavour, out[-3000:]))
+        _replay_built[flavour] = True
     return os.path.join(d, "target", "release", "replay"), os.path.join(d, "target", "debug", "replay")
 
 
 def run_recipe(recipe, args):
-    rel, dev = replay_bin()
+    rel, dev = replay_bin("rng" if recipe == "rng_fail" else "std")
     outs = []
     ok_all = None
     cond = None
